@@ -4,7 +4,7 @@
 set -e
 S=$(mktemp -d /var/tmp/vlitmus.XXXXXX); trap 'rm -rf "$S"' EXIT
 export GOTOOLCHAIN=local GOFLAGS=-mod=mod GOPROXY=off GOSUMDB=off PATH=/opt/veriftools/go1.26.8/bin:$PATH
-cd /verif
+cd "$(dirname "$0")/.."
 ./build_sched.sh $S >/dev/null 2>&1
 $S/hsched -prop LITMUS -tier quick -out $S/sched.json >/dev/null
 ./build_seq.sh $S >/dev/null 2>&1
